@@ -87,7 +87,14 @@ def h_angles(sx, cfg):
     import discretisedfield.tools as dft
 
     n = tuple(cfg["n"])
-    mesh, pmin, e = sym_mesh(sx, n, flip=False)
+    if cfg.get("box"):
+        # concrete corners given as Python ints (the library keeps integer arrays for such regions)
+        b1, b2 = cfg["box"]
+        mesh = df.Mesh(p1=tuple(b1), p2=tuple(b2), n=n)
+        pmin = [min(x, y) for x, y in zip(b1, b2)]
+        e = [abs(y - x) for x, y in zip(b1, b2)]
+    else:
+        mesh, pmin, e = sym_mesh(sx, n, flip=False)
     c = [e[a] / n[a] for a in range(3)]
     f, arr = _vec_field(sx, df, mesh, n)
     d = cfg["direction"]
@@ -433,6 +440,21 @@ def h_native_topology(sx, cfg):
             sx.check(f"{method}-quarter-turn", abs(dft.topological_charge(fm.rotate90("x", "y"), method=method) - q0) < 1e-9)
             u = df.Field(f.mesh, nvdim=3, value=(0.3, -0.5, 0.8))
             sx.check(f"{method}-uniform-zero", abs(dft.topological_charge(u, method=method)) < 1e-12)
+        # a skyrmion next to an antiskyrmion: the absolute charge is the integral of |density| (about two), the plain one their sum
+        big_n = (32, 16)
+        left = _skyrmion(df, big_n, (1.0, 1.0), 5.0, centre_shift=(-8.0, 0.0))
+        right = _skyrmion(df, big_n, (1.0, 1.0), 5.0, centre_shift=(8.0, 0.0))
+        ra = right.array.copy()
+        ra[..., 1] *= -1  # mirrored in-plane component: opposite winding
+        mix = np.where((np.arange(big_n[0]) < big_n[0] // 2)[:, None, None], left.array, ra)
+        pair = df.Field(left.mesh, nvdim=3, value=mix)
+        for method in ("continuous", "berg-luescher"):
+            dens = dft.topological_charge_density(pair, method=method)
+            want_abs = float(abs(dens).integrate().item())
+            got_abs = dft.topological_charge(pair, method=method, absolute=True)
+            got = dft.topological_charge(pair, method=method)
+            sx.check(f"{method}-absolute-charge-is-integral-of-abs-density", abs(got_abs - want_abs) < 1e-9 and want_abs > 1.5, got=got_abs, want=want_abs)
+            sx.check(f"{method}-charge-is-integral-of-density", abs(got - float(dens.integrate().item())) < 1e-9 and abs(got) < 0.2, got=got)
         # antiparallel neighbours in generic directions: angle pi, never nan
         m3 = df.Mesh(p1=(0, 0, 0), p2=(2e-9, 3e-9, 1e-9), n=(2, 3, 1))
         bad = 0
@@ -494,6 +516,13 @@ def h_native_demag(sx, cfg):
         if len(set(n)) == 1 and len(set(cell)) == 1:
             sx.check("cube-one-third-each", all(abs(c_ + Ms / 3) < 1e-6 * Ms for c_ in comps))
         sx.check("all-negative", all(c_ < 0 for c_ in comps), comps=str([c_ / Ms for c_ in comps]))
+        # history: the same mesh object is rescaled in place (other cell aspect ratios), the tensor is asked for again
+        mesh.scale((1.0, 2.0, 0.5), inplace=True)
+        T3 = dft.demag_tensor(mesh)
+        T4 = dft.tools._demag_tensor_field_based(df.Mesh(p1=mesh.region.pmin, p2=mesh.region.pmax, n=mesh.n))
+        sx.check("after-in-place-rescaling-implementations-agree", bool(np.allclose(T3.array, T4.array, rtol=1e-9, atol=1e-12)))
+        tot3 = sum(float(dft.demag_field(df.Field(mesh, nvdim=3, value=M), T3).mean()[i]) for i, M in enumerate(((Ms, 0, 0), (0, Ms, 0), (0, 0, Ms))))
+        sx.check("after-in-place-rescaling-sum-rule", abs(tot3 + Ms) < 1e-6 * Ms, got=tot3 / Ms)
 
 
 def tasks(tier):
@@ -503,6 +532,8 @@ def tasks(tier):
     for n in ([(2, 2, 1), (3, 1, 2)] if q else [(2, 2, 1), (3, 1, 2), (2, 3, 2)]):
         for d in range(3):
             t.append(dict(harness="h_angles", cfg=dict(n=list(n), direction=d, units="deg" if d == 1 else "rad"), limits=big))
+    for box, n, d in (([[0, 0, 0], [3, 2, 1]], (3, 2, 1), 0), ([[-5, 0, 1], [4, 3, 3]], (3, 3, 2), 1), ([[0, 0, 0], [2, 1, 5]], (2, 1, 5), 2)):
+        t.append(dict(harness="h_angles", cfg=dict(n=list(n), direction=d, box=box), limits=big))
     n2 = [3, 3]
     for what in ("uniform", "reversal", "translate", "mesh-scale", "quarter-turn"):  # per-cell rescaling: native only (needs sqrt(lambda^2 |v|^2) = lambda |v|)
         t.append(dict(harness="h_charge_invariance", cfg=dict(n=n2, what=what), limits=big))
